@@ -453,6 +453,10 @@ def run_quic_case(lab, names):
             for i, n in enumerate(names):
                 if n == "EE":
                     m = ee
+                elif n in ("SH", "SHpsk"):
+                    m = bufs[E.INITIAL].data if n == "SH" else add_psk_to_server_hello(bufs[E.INITIAL].data)
+                elif n == "CH":
+                    m = bytes(data)
                 elif n in ("CERT", "CERTempty"):
                     m = lab.certificate(empty=(n == "CERTempty"))
                 elif n in ("CV", "CVbad"):
@@ -471,6 +475,8 @@ def run_quic_case(lab, names):
     server._initialize = initialize
     for data, _ in client.datagrams_to_send(now=0.0):
         server.receive_datagram(data, ("192.0.2.2", 5000), now=0.0)
+    for path in server._network_paths:          # an attacker is not bound by the anti-amplification limit
+        path.is_validated = True
     # the sans-IO pattern: all datagrams that arrived are handed over, then the
     # application asks for events / datagrams to send
     crashed = ""
@@ -488,7 +494,9 @@ def run_quic_case(lab, names):
         completed = completed or type(ev).__name__ == "HandshakeCompleted"
     close = client._close_event
     return [{"op": "init", "role": "client", "pskOffered": False, "certReq": False, "tickets": False},
-            {"op": "quic", "names": list(names), "fed": bool(st["done"]), "completed": completed,
+            {"op": "quic", "names": list(names), "completed": completed,
+             # the whole forged flight left the adversary
+             "fed": bool(st["done"]) and len(server._crypto_streams[E.HANDSHAKE].sender._pending) == 0,
              "post": client.tls.state.name,
              "code": -2 if crashed else (-1 if close is None else int(close.error_code)),
              "onertt": bool(client._cryptos[E.ONE_RTT].recv.is_valid()),
@@ -560,8 +568,9 @@ def signature(cfg, line, clause, case_lines=(), li=0):
     and successor state; for the clauses that speak about the history also the
     configuration and the messages accepted so far."""
     if line["op"] == "quic":
-        return "tls-order:client:quic:%s:completed=%s:code=%s:post=%s:accepted-when-fed-on=%s" % (
-            clause, line["completed"], line["code"], line["post"], "+".join(line["accepted"]))
+        return "tls-order:client:quic:%s:completed=%s:closed=%s:post=%s:accepted-when-fed-on=%s" % (
+            clause, line["completed"], "no" if line["code"] == -1 else ("crash" if line["code"] == -2 else "yes"),
+            line["post"], "+".join(line["accepted"]))
     if line["op"] == "batch":
         sig = "tls-order:%s:batch:state=%s:msgs=%s:%s:alert=%s:post=%s" % (
             cfg["role"], line["pre"], "+".join(line["names"]), clause, line["alert"], line["post"])
@@ -699,7 +708,7 @@ def run(check):
         raise MachineryError("Tls13: the legal orders do not complete in the model (ASSUME LegalOrdersComplete)")
     if r.violated:
         check.model_violation(r, "Tls13-free")
-    script_cfgs = [(5, 1), (3, 2)] if quick else [(5, 1), (6, 2)]
+    script_cfgs = [(5, 1), (3, 2)] if quick else [(5, 1), (5, 2)]
     texts = []
     for L, R in script_cfgs:
         r = check.run_tlc("Tls13", "SPECIFICATION SpecScript\n" + BASE % (8, L, R) + inv, name="Tls13_scripts_%d_%d" % (L, R),
@@ -754,7 +763,6 @@ def run(check):
         if case_key(cfg) == "client|000" and names[0] == "SH" and (not quick or len(set(names)) == len(names)):
             jobs.append((cfg, names, "quic"))
             nquic += 1
-    check.cov["scripts_through_quic_client"] = nquic
     # ---- (V) seeded random sequences over the whole alphabet ---------------------
     for _ in range(300 if quick else 4000):
         cfg, alphabet = configs[rnd.randrange(len(configs))]
@@ -778,6 +786,10 @@ def run(check):
             jobs.append((cfg, names, None))
             if rnd.random() < 0.3 and len(names) > 2:
                 jobs.append((cfg, names, 1))
+            if case_key(cfg) == "client|000" and names[0] == "SH" and len(names) > 1:
+                jobs.append((cfg, names, "quic"))
+                nquic += 1
+    check.cov["sequences_through_quic_client"] = nquic
     results = run_jobs(lab, jobs, procs=8)
     cases += [(cfg, names, bf, ls) for (cfg, names, bf), ls in zip(jobs, results)]
 
